@@ -17,6 +17,7 @@ namespace LunarVerif.C04
 open LunarVerif.FlowGraph LunarVerif.FlowExec
 
 structure Filter where
+  url : String := "x"            -- "x" / "y": the exact test URLs; "*": the wildcard pattern `host/*`
   methods : List String := []
   headers : List (String × String) := []
   status : List Nat := []
@@ -25,6 +26,7 @@ deriving DecidableEq, Repr, Inhabited
 
 /-- what the filter looks at in a transaction -/
 structure TxnAttrs where
+  url : String := "x"
   method : String := "GET"
   headers : List (String × String) := []
   query : List (String × String) := []
@@ -54,11 +56,14 @@ def Filter.queryOk (f : Filter) (t : TxnAttrs) : Bool :=
 def Filter.statusOk (f : Filter) (t : TxnAttrs) (p : Phase) : Bool :=
   f.status.isEmpty || (match p with | .res => f.status.contains t.status | _ => false)
 
-/-- `FilterNode.validate` -/
+/-- the flow's URL pattern is on the path the filter tree traverses for the transaction's URL -/
+def Filter.urlOk (f : Filter) (t : TxnAttrs) : Bool := f.url == "*" || f.url == t.url
+
+/-- URL traversal + `FilterNode.validate` -/
 def Filter.qualifies (f : Filter) (t : TxnAttrs) : Phase → Bool
-  | .req => f.headersOk t && f.methodOk t .req && f.queryOk t
-  | .res => f.statusOk t .res && f.methodOk t .res
-  | .early => f.statusOk t .early && f.methodOk t .early
+  | .req => f.urlOk t && f.headersOk t && f.methodOk t .req && f.queryOk t
+  | .res => f.urlOk t && f.statusOk t .res && f.methodOk t .res
+  | .early => f.urlOk t && f.statusOk t .early && f.methodOk t .early
 
 /-- the flows of a loaded configuration that qualify (`filters`: flow name ↦ filter; absent = unconstrained) -/
 def selectFor (filters : List (String × Filter)) (t : TxnAttrs) (p : Phase) (s : Selected) : Selected :=
@@ -66,7 +71,13 @@ def selectFor (filters : List (String × Filter)) (t : TxnAttrs) (p : Phase) (s 
     match filters.find? (·.1 == f.name) with
     | some (_, fl) => fl.qualifies t p
     | none => true
-  { start := s.start.filter ok, user := s.user.filter ok, finish := s.finish.filter ok }
+  let wild := fun (f : Flow) =>
+    match filters.find? (·.1 == f.name) with
+    | some (_, fl) => fl.url == "*"
+    | none => false
+  -- the traversal yields the wildcard node's flows before those of the exact node
+  let arrange := fun (l : List Flow) => (l.filter ok).filter wild ++ (l.filter ok).filter (!wild ·)
+  { start := arrange s.start, user := arrange s.user, finish := arrange s.finish }
 
 /-- `Stream.executeReq` with the re-selection of the early-response walk: `s` = flows selected for the request,
     `s'` = flows selected again (response type, no response) once a processor has answered. -/
